@@ -41,6 +41,19 @@ CHECKS = {
          "code point for code point over all Unicode planes, hand-written frequency files, cues_outcomes, and the learners "
          "given path string / path object / generator / iterable compared exactly.",
          "5 C07", "Coq proof (split/join round trip, reader state machine) + exact differential correspondence"),
+ "C08": ("proof", "Theorems C08_r2r / C08_r2b / C08_b2r: the loop-faithful models of the three Widrow-Hoff kernels on flat 64-bit "
+         "indexed memory compute the delta rule (WHSpec: x = sum of cue vectors or the multiplicity vector, t = sum of outcome "
+         "vectors or lambda*presence with betas) on exactly the trained rows, for every ring, table, eta; C08_*_any_schedule: "
+         "for ANY partition of the rows and ANY interleaving (generic row-wise theory RowWise.v). The numpy method and dict_wh "
+         "are compared with the same model on single-cue/single-outcome events. Correspondence X-wh incl. same-flavour "
+         "continuation chains (the WH half of C03).",
+         "5 C08", "Coq proof (generic row-local kernels, interleaving theorem) + exact-rational differential correspondence"),
+ "C14": ("proof", "Theorems C14_b2r_onehot / C14_r2b_onehot / C14_r2r_onehot: with one-hot tables given by injective maps the "
+         "Widrow-Hoff rule read through the dimension renaming equals RWSpec.learn with alpha=1, beta1=beta2=eta, lambda=1 "
+         "(cue repetitions allowed, outcomes unique per event - the necessity of that hypothesis is shown by an example). The "
+         "check compares wh.wh against ndl.ndl on the same file (real code on both sides, all flavours/methods/row orders, "
+         "> 10 chunks) and runs reduced X-wh / X-rw correspondences through which the theorems transfer.",
+         "5 C14", "Coq proof (one-hot sums, induction on events) + wh-vs-ndl runs of the real code + reduced correspondences"),
  "C09": ("proof", "Theorems C09_state_machine_eq_spec / C09_lines_eq_spec (the loop-faithful model of create_event_file, incl. the "
          "captured-marker quirk of re.split, equals the documented windowing spec for every corpus, oracle and option "
          "combination), C09_no_context_bleeding, C09_window_within_one_document, C09_windows_consecutive_char, C09_ngrams_*, "
